@@ -28,3 +28,77 @@ package core
 //@   ensures[sticky] old(c.serverChanged) ==> c.serverChanged
 //@   ensures[unusable] result != nil ==> c.serverChanged == old(c.serverChanged) && c.Replicasets == old(c.Replicasets) && c.lastServerNames == old(c.lastServerNames)
 //@       && heap(hashmap.HashMap.view) == old(heap(hashmap.HashMap.view))
+
+//@ define nodesok(l) = forall i int :: 0 <= i && i < len(l) ==> l[i] != nil && slotsok(l[i])
+//@ define usable(n) = !str_contains(n.Flags, "noaddr") && !str_contains(n.Flags, "handshake") && !str_contains(n.Flags, "fail")
+
+//@ func ClusterNode.parseAddr
+//@   flags trusted pure
+
+//@ func ClusterNodes.redisInfo
+//@   flags trusted
+//@   modifies nothing
+//@   ensures result1 == nil ==> result0 != nil
+
+//@ func ClusterNodes.newClusterNode
+//@   props C14
+//@   modifies nothing
+//@   requires len(line) >= 8
+//@   ensures[node] result1 == nil ==> result0 != nil && fresh(result0) && slotsok(result0) && result0.Flags == line[2] && result0.Name == line[0] && result0.MasterId == line[3]
+//@   ensures[role] result1 == nil ==> (result0.Role == Master) == str_contains(line[2], "master")
+//@   loop 0
+//@     modifies node.Slots, capmem(node.Slots)
+//@     invariant 8 <= i && i <= len(line) && node != nil && fresh(node) && slotsok(node) && sameback(node.Slots)
+//@     invariant node.Flags == line[2] && node.Name == line[0] && node.MasterId == line[3] && (node.Role == Master) == str_contains(line[2], "master")
+
+//@ func ClusterNodes.parse
+//@   props C14
+//@   modifies nothing
+//@   ensures[few] err != nil ==> allNodes == nil
+//@   ensures[enough] err == nil ==> len(allNodes) >= 3
+//@   ensures[usable] err == nil ==> nodesok(allNodes) && (forall i int :: 0 <= i && i < len(allNodes) ==> usable(allNodes[i]))
+//@   ensures[roles] err == nil ==> (forall i int :: 0 <= i && i < len(allNodes) ==> (str_contains(allNodes[i].Flags, "master") || str_contains(allNodes[i].Flags, "slave")))
+//@   loop 0
+//@     modifies capmem(allNodes)
+//@     invariant 0 <= rangeindex + 1 && rangeindex + 1 <= len(lines) && (allNodes == nil || sameback(allNodes))
+//@     invariant forall i int :: 0 <= i && i < len(allNodes) ==> allNodes[i] != nil && fresh(allNodes[i])
+//@     invariant forall i int, j int :: (0 <= i && i < len(allNodes) && 0 <= j && j < len(allNodes[i].Slots)) ==> (0 <= allNodes[i].Slots[j].Start && allNodes[i].Slots[j].Start < 16384 && 0 <= allNodes[i].Slots[j].End && allNodes[i].Slots[j].End < 16384)
+//@     invariant forall i int :: 0 <= i && i < len(allNodes) ==> usable(allNodes[i])
+//@     invariant forall i int :: 0 <= i && i < len(allNodes) ==> (str_contains(allNodes[i].Flags, "master") || str_contains(allNodes[i].Flags, "slave"))
+
+//@ func ClusterNodes.isChanged
+//@   props C14
+//@   modifies c.lastServerNames
+//@   requires forall i int :: 0 <= i && i < len(allNodes) ==> allNodes[i] != nil
+//@   loop 0
+//@     modifies nothing
+//@     invariant 0 <= rangeindex + 1 && rangeindex + 1 <= len(allNodes) && (serverNames == nil || sameback(serverNames))
+
+//@ func ClusterNodes.setServer
+//@   props C14
+//@   modifies c.ServerMap.view
+//@   requires forall i int :: 0 <= i && i < len(allNodes) ==> allNodes[i] != nil
+//@   loop 0
+//@     modifies c.ServerMap.view
+//@     invariant true
+//@   loop 1
+//@     modifies c.ServerMap.view
+//@     invariant 0 <= rangeindex + 1 && rangeindex + 1 <= len(allNodes)
+
+//@ func ClusterNodes.setReplicaset
+//@   props C14
+//@   modifies c.Replicasets, capmem(c.Replicasets), replicaset.Slaves
+//@   requires forall i int :: 0 <= i && i < len(allNodes) ==> allNodes[i] != nil
+//@   ensures[masters] forall i int :: 0 <= i && i < len(c.Replicasets) ==> c.Replicasets[i] != nil && c.Replicasets[i].Master != nil
+//@   loop 0
+//@     modifies c.Replicasets, capmem(c.Replicasets)
+//@     invariant 0 <= rangeindex + 1 && rangeindex + 1 <= len(allNodes) && sameback(c.Replicasets)
+//@     invariant forall i int :: 0 <= i && i < len(c.Replicasets) ==> c.Replicasets[i] != nil && c.Replicasets[i].Master != nil && newinloop(c.Replicasets[i]) && c.Replicasets[i].Slaves == nil
+//@   loop 1
+//@     modifies replicaset.Slaves
+//@     invariant 0 <= rangeindex#1 + 1 && rangeindex#1 + 1 <= len(allNodes)
+//@     invariant forall i int :: 0 <= i && i < len(c.Replicasets) ==> c.Replicasets[i] != nil && c.Replicasets[i].Master != nil && (c.Replicasets[i].Slaves == nil || newinloop(c.Replicasets[i].Slaves))
+//@   loop 2
+//@     modifies replicaset.Slaves
+//@     invariant 0 <= rangeindex#2 + 1 && rangeindex#2 + 1 <= len(c.Replicasets)
+//@     invariant forall i int :: 0 <= i && i < len(c.Replicasets) ==> c.Replicasets[i] != nil && c.Replicasets[i].Master != nil && (c.Replicasets[i].Slaves == nil || fresh(c.Replicasets[i].Slaves))
